@@ -19,8 +19,8 @@ for line in open(os.path.join(V, 'properties.jsonl')):
 	TITLES[d['id']] = d['title']
 
 OPEN = {
-	'C01': 'The property as stated (every byte stream) is false of the code: F17, F18, F19 (kernel-evaluated witnesses). Proved: the body layer for all inputs; the header section for well-formed sections cut anywhere (`headers_fragmentation`); the whole loop for well-formed pipelines of Content-Length and chunked messages in any fragmentation (`fragmentation_independent`, `feedAll_prefix`; `Props/C01Pipeline.lean`, generalised in `Props/C01Mixed.lean`). Open: trailer fields inside the loop-level theorem (the trailer reader has its own stability theorems), and a characterisation of the malformed streams on which the code is still fragmentation independent.',
-	'C02': 'Whole pipelines are a theorem (`pipeline_mixed`): start line, header section and body of every message through the outer loop, Content-Length and chunked framing mixed, both sides; the per-message hypotheses (`Good`, `GoodC`) are stated through the model functions for the start line and the header hooks, whose own round trips are C18, C10, C08. The prefix clause is `feedAll_prefix` (Content-Length framed and chunked messages mixed, every cut). Open: chunked bodies with trailer fields inside the pipeline theorems (`trailers_stable_*` cover the trailer reader alone).',
+	'C01': 'The property as stated (every byte stream) is false of the code: F17, F18, F19 (kernel-evaluated witnesses). Proved: the body layer for all inputs; the header section for well-formed sections cut anywhere (`headers_fragmentation`); the whole loop for well-formed pipelines of Content-Length and chunked messages in any fragmentation (`fragmentation_independent`, `feedAll_prefix`; `Props/C01Pipeline.lean`, generalised in `Props/C01Mixed.lean`). Chunked messages with a trailer section are a third instance (`Props/C01Trailers.lean`; what the merge makes of the fields is a hypothesis there, C07 speaks about it). Open: a characterisation of the malformed streams on which the code is still fragmentation independent.',
+	'C02': 'Whole pipelines are a theorem (`pipeline_mixed`): start line, header section and body of every message through the outer loop, Content-Length and chunked framing mixed, both sides; the per-message hypotheses (`Good`, `GoodC`) are stated through the model functions for the start line and the header hooks, whose own round trips are C18, C10, C08. The prefix clause is `feedAll_prefix` (Content-Length framed and chunked messages mixed, every cut). Chunked bodies with trailer fields are covered by `Props/C01Trailers.lean` (the merged record is a hypothesis) (`trailers_stable_*` cover the trailer reader alone).',
 	'C03': 'Stack depth and running time are runtime behaviour: measured (deep inputs under a lowered recursion limit; long runs with hostile tails under a wall-clock budget in a child interpreter), not proved. zlib, email.header.decode_header and the idna codec are outside the model (`needsOracle`); for those inputs only the oracle on the real code speaks.',
 	'C04': 'Responses: one theorem for the whole message (`response_roundtrip`, `response_roundtrip_chunked`), composed of C18 (`response_line_roundtrip`), C08 (`compose_parse_roundtrip`), C05/C14 (`chunkFrame`) and the pipeline theorem of C02. Open: the same for requests (the target passes through URI parse, normalisation, the 301 rule and the Host hooks: each link proved or tied separately, the conjunction decided by the oracle) and for content codings inside the whole-message statement.',
 	'C05': 'Idempotence of prepare() is proved for requests and for responses other than to HEAD (`prepareRequest_idem`, `prepareResponse_idem`); the HEAD exception is finding F46. Non-destructiveness of body sources (file positions, generator buffering) is behaviour of Python objects: decided by repeated composition on the real code.',
